@@ -3,6 +3,7 @@ import GB.C19.Model
 import GB.C19.Join
 import GB.C19.Query
 import GB.C07.Wire
+import GB.C19.Wire
 /-
   C19 driver.  Lines (hex `x…`; `m:` multimap = `xKEY:xV1,xV2` joined by `;` sorted by key):
 
@@ -15,6 +16,8 @@ import GB.C07.Wire
                                         => seen=m:<r.Header at the handler> q=m:<r.URL.Query() at the handler> st=<status>
                                            md=m:<incoming metadata the forwarder was handed>|-
 
+  `disp` cases are judged by `dispatchWire` (GB/C19/Wire.lean) on the RAW header block the harness wrote on the TCP
+  connection (`wireBlock` rebuilds those bytes from the case line): model = spec on the wire, `C19_dispatch_wire`.
   `dispatch` is proved equal to the RFC 7230 / media-type specification (C19_ws, C19_grpcws,
   C19_grpcweb, C19_http), so a deviation of the implementation from `dispatch` is a violation of
   the specification — except in the band the specification leaves open (a media type that starts
@@ -147,7 +150,12 @@ def handle : Handler
       match parseM seenS, parseM qS with
       | some seen, some q =>
         let hd := hdrsOf seen
-        let m := dispatch hd
+        -- judged by the WIRE-level specification on the raw header block that was sent (`dispatchWire`, proved equal to
+        -- the model `dispatchRaw` = serverHeader + dispatch: C19_dispatch_wire); `headerTie` above has already
+        -- established that the server layer model accepts the block, so the fallback is unreachable
+        let m := match block.bind dispatchWire with
+          | some b => b
+          | none => dispatch hd
         let ms := showBridge m
         let upg := m == .ws || m == .grpcws
         if h != ms then
